@@ -3,7 +3,10 @@ CLAIMED = {
  'C06': dict(engine='session_atoms', ref='4.5',
    text='Seeded search over edit histories on a pool of live Atoms/System objects (every operation of the quantifier, refused operations, caller scribbles, writes through possibly-aliased children, box changes under relatives) with every pooled object compared cell by cell against a record-per-atom model after every step. Exploration: the property quantifies over histories, which can only be sampled.',
    note='Single caller (atomman has no threads). Undocumented sharing between a slice child and its parent is treated as may-alias (old-or-new accepted for cells written through the other side). Writes to existing properties are generated representable in the stored dtype.',
-   technique='deterministic simulation: seeded operation-and-fault histories vs record-per-atom reference model, ddmin replay'),
+   technique='deterministic simulation: seeded operation-and-fault histories vs record-per-atom reference model, ddmin replay'), 'C15': dict(engine='session_point', ref='4.6',
+   text='Seeded search over histories of point-defect insertions (vacancy, interstitial, substitutional, dumbbell; direct and via point()) on evolving systems, each site selected by index, position, box-relative position or periodic image, with a record-per-atom model carrying original-id bookkeeping; every successful insertion is repeated through every other selection method (differential), refused sites (absent, ambiguous, occupied, also through an image) must be refused, and all systems of the history are compared bit for bit with their snapshots after every operation and after scribbling on results. Exploration: histories and site/selection combinations are sampled.',
+   note='Site decisions use the 27-image periodic distance (same definition as C02); sites between 0.6 and 1.6 atol from any atom are not generated; exception classes, masses and the old_id of ADDED atoms are not part of the statement and are not checked.',
+   technique='deterministic simulation: seeded insertion/refusal/scribble histories vs reference model + differential selection, ddmin replay'),
 }
 BUILDING = {p: 'claimed in DESIGN.md; check under construction in this session, not yet registered' for p in
-            ['C08', 'C09', 'C10', 'C15', 'C19']}
+            ['C08', 'C09', 'C10', 'C19']}
